@@ -838,7 +838,8 @@ class Node:
         if msg.header.is_request and hasattr(msg, "origin_host"):
             # Record who originally sent a request, as this information is lost
             # by the time an answer will go out
-            message_id = (f"{msg.header.hop_by_hop_identifier}:"
+            message_id = (f"{conn.ident}:"
+                          f"{msg.header.hop_by_hop_identifier}:"
                           f"{msg.header.end_to_end_identifier}")
             self._origin_waiting_answer[message_id] = (
                 msg.origin_host, time.time())
@@ -1031,7 +1032,8 @@ class Node:
 
     def _record_answer(self, conn: PeerConnection, message: Message):
         """Notes the end-to-end identifier of an answer, for retransmit checks."""
-        message_id = (f"{message.header.hop_by_hop_identifier}:"
+        message_id = (f"{conn.ident}:"
+                      f"{message.header.hop_by_hop_identifier}:"
                       f"{message.header.end_to_end_identifier}")
         if message_id not in self._origin_waiting_answer:
             return
